@@ -145,6 +145,8 @@ class Engine(object):
             return False
         if self.pos < len(self.prefix):
             d = self.prefix[self.pos]
+            if not isinstance(d, bool):
+                raise Inconclusive("non-deterministic replay: expected a boolean decision")
         else:
             if len(self.decisions) >= self.max_decisions:
                 raise Inconclusive("decision budget %d exceeded on one path" % self.max_decisions)
@@ -188,6 +190,51 @@ class Engine(object):
             if not z3.is_true(v):
                 self._model = None
         return d
+
+    def choose(self, term, limit=4096):
+        """Concretise an Int term: returns a python int and forks over every feasible value.
+        The decision record holds the chosen value, so replay is deterministic."""
+        if self.judging:
+            raise RuntimeError("proxy concretised inside the judge (oracle bug)")
+        term = z3.simplify(term)
+        if z3.is_int_value(term):
+            return term.as_long()
+        if self.pos < len(self.prefix):
+            d = self.prefix[self.pos]
+            if not (isinstance(d, tuple) and d[0] == "v"):
+                raise Inconclusive("non-deterministic replay: expected a value decision")
+        else:
+            if len(self.decisions) >= self.max_decisions:
+                raise Inconclusive("decision budget %d exceeded on one path" % self.max_decisions)
+            if self.frontier_depth is not None and len(self.decisions) >= self.frontier_depth:
+                raise Frontier()
+            vals = []
+            self.solver.push()
+            try:
+                while True:
+                    if self._check() != z3.sat:
+                        break
+                    v = self.solver.model().eval(term, model_completion=True).as_long()
+                    vals.append(v)
+                    if len(vals) > limit:
+                        raise Inconclusive("more than %d feasible values to concretise" % limit)
+                    self.solver.add(term != v)
+            finally:
+                self.solver.pop()
+            if not vals:
+                raise Infeasible()
+            vals.sort()
+            for v in reversed(vals[1:]):
+                self.work.append(self.decisions + [("v", v)])
+            d = ("v", vals[0])
+        self.decisions.append(d)
+        self.pos += 1
+        c = term == d[1]
+        self.solver.add(c)
+        if self._model is not None:
+            if not z3.is_true(self._model.eval(c, model_completion=True)):
+                self._model = None
+        return d[1]
 
     # ------------------------------------------------------------------ explore
     def explore(self, fn, on_path, prefixes=None, max_paths=10 ** 8, frontier_depth=None,
